@@ -207,6 +207,12 @@ def boundary_trees(tier):
     out.append({"name": "empty_content", "tree": {"t": "x", "a": [], "c": {"hex": ""}}})
     out.append({"name": "empty_content_then_sibling",
                 "tree": {"t": "p", "a": [], "c": [{"t": "x", "a": [], "c": {"hex": ""}}, {"t": "y", "a": [], "c": None}]}})
+    # nesting: a chain of single children far deeper than any real stanza, with a sibling after the innermost node
+    for depth in (40, 120, 300):
+        t = {"t": "leaf", "a": [["d", str(depth)]], "c": {"hex": "0a0b"}}
+        for i in range(depth):
+            t = {"t": "n%d" % (i % 7), "a": [], "c": [t] if i else [t, {"t": "after", "a": [], "c": None}]}
+        out.append({"name": "nested_%d_deep" % depth, "tree": t})
     return out
 
 
